@@ -54,7 +54,7 @@ RULE = ("Well-typed closed terms over the signatures of the library theories log
         "result must be alpha-equal to the JSON original by the independent reference (vlib.ref) AND equal by holpy ==; "
         "ASCII mode must print ASCII only and Unicode mode none of the ASCII operator spellings. Non-trivial: >= 2 table "
         "operators nested, or a binder, or the text contains '::' (types: a constructor with arguments; sequents: >= 1 "
-        "hypothesis; items: arguments or a sequent present); distinct by kind+theory+term (printed text for the other kinds).")
+        "hypothesis; items: arguments or a sequent present); distinct by kind+theory+object (canonical JSON, not the printed text: the text of alpha-equal terms depends on the printing history).")
 ASSUMPTIONS = [
     "Inst objects are compared on their term map only: tyinst / var_inst / abs_name_inst of kernel.term.Inst have no "
     "concrete syntax in export_proof_item and are generated empty",
@@ -779,7 +779,7 @@ def check_type(case, H):
         except Exception as e:
             H.violation('type:reparse-fails-%s:%s' % (exc_name(e), type_feature(jT)), case,
                         'printed %r; parse raises %s: %s' % (text, exc_name(e), str(e)[:200]))
-    H.case(case, nontrivial, kl, key='type|%s|%s' % (thname, text if text is not None else harness.canon(jT)))
+    H.case(case, nontrivial, kl, key='type|%s|%s' % (thname, harness.canon(jT)))
 
 
 def type_feature(jT):
@@ -874,7 +874,7 @@ def check_thm(case, H):
         except Exception as e:
             H.violation('thm:reparse-fails-%s:%s' % (exc_name(e), thm_feature(thname, jth, uni)), case,
                         'printed %r; parse raises %s: %s' % (text, exc_name(e), str(getattr(e, 'err', e))[:200]))
-    H.case(case, len(jth['hyps']) >= 1, kl, key='thm|%s|%s' % (thname, text if text is not None else harness.canon(jth)))
+    H.case(case, len(jth['hyps']) >= 1, kl, key='thm|%s|%s' % (thname, harness.canon(jth)))
 
 
 # ---------------------------------------------------------------------------------------- Inst / TyInst
@@ -1005,7 +1005,7 @@ def check_inst(case, H):
             kl.append('!%s:fails' % kind)
     else:
         kl.append('!%s:component-term-fails' % kind)
-    H.case(case, len(jobj) >= 1, kl, key='%s|%s|%s' % (kind, thname, text if text is not None else harness.canon(jobj)))
+    H.case(case, len(jobj) >= 1, kl, key='%s|%s|%s' % (kind, thname, harness.canon(jobj)))
 
 
 # ---------------------------------------------------------------------------------------- proof items
@@ -1202,7 +1202,7 @@ def check_item(case, H):
         except Exception as e:
             H.violation('item:reparse-fails-%s:%s' % (exc_name(e), feature()), case,
                         'exported %r; parse_proof_rule raises %s: %s' % (data, exc_name(e), str(getattr(e, 'str', getattr(e, 'err', e)))[:200]))
-    key = 'item|%s|%s' % (thname, harness.canon(data) if data is not None else harness.canon(case))
+    key = 'item|%s|%s' % (thname, harness.canon([jid, rule, jargs, jprevs, jth]))
     H.case(case, jargs is not None or jth is not None, kl, key=key)
 
 
